@@ -65,6 +65,18 @@ CHECKS = {
         note="Trusted: Coq kernel (theorems closed, no axioms); regen unit GenLayout (AST facts about _LayoutAdapter); Tensor.v's ONNX Transpose semantics; "
              "the unoptimised real export is checked to carry exactly the modelled boundary transposes. The per-program ORT comparison after optimisation is exploration, not proof.",
         technique="Rocq proof over tensors-as-index-functions with source-extracted permutations; structural tie on the real export; ORT sweep over flag subsets"),
+    "C05": dict(
+        category="proof",
+        text="Proof + validation: the always-keep decision of the input-pruning pass is translated from the current source each run and Coq proves that "
+             "every positional-input name the exporter generates (in_<i> and in_<i>_nchw, EVERY index i) is kept, that pruning never drops or reorders "
+             "positional inputs whether used or not, only removes, and keeps every used input; the element-type rule of the interface checker is proved to "
+             "imply the property's clauses (same class, float width per flag unless requested, ints keep or widen to int64, complex as trailing pair). "
+             "The checker interface_ok is evaluated inside Coq on real exports of 17 programs x {single,double} x {default,custom names} x layout flags "
+             "against jax.eval_shape (count, order, names, dtypes, ranks, static dims, symbols).",
+        design_ref="DESIGN.md section 4 C05",
+        note="Trusted: Coq kernel (no axioms); py2coq string semantics (PyLib.v) for _should_always_keep; hand model `prune` tied to prune_unused_graph_inputs_ir by differential run; "
+             "onnx2coq/Onnx.v converter; jax.eval_shape (in the precision mode of the export) as oracle of the callable's signature. Known findings: outputs aliasing inputs/each other share one name; custom names then raise.",
+        technique="Rocq proof over auto-translated string predicate (all indices) + proved-spec interface checker evaluated by vm_compute on real exports"),
     "C06": dict(
         category="proof",
         text="Full proof of the four control-flow wiring schemes: Loop.v models ONNX Loop/If (with fuel; out-of-fuel and runtime fault are distinct outcomes) and JAX while_loop/scan/fori_loop/cond/switch, and Coq proves for EVERY trip count, sequence length (0 included), integer bound pair (upper<=lower included), predicate value and switch index that the Loop/If graph the plugins build returns JAX's final carry and stacked per-step outputs (incl. vmapped while with frozen lanes, two scanned arrays, length-only scan, 2-branch arity rejection). Validated tie: the scheme parameters are extracted from real exports of 25 programs each run and the assumed ONNX Loop/If semantics are evaluated inside Coq against onnxruntime.",
